@@ -129,8 +129,22 @@ Definition view_add_head (v : view) (h : nat) : view := set_heads v (ins h (v_he
 Definition view_replace_heads (v : view) (h : nat) (rm : list nat) : view :=
   set_heads v (fold_left (fun hs p => remn p hs) rm (ins h (v_heads v))) (v_norm v).
 
-(** * MutableRepo::add_heads (repo.rs:1697-1726): the commits already exist in the graph *)
+(** * MutableRepo::add_heads (repo.rs:1697-1730): the commits already exist in the graph.
+    The incremental path is taken for a single commit that has parents, all of them heads. *)
+Definition is_nil {A} (l : list A) : bool := match l with [] => true | _ => false end.
 Definition add_heads (s : state) (hs : list nat) : state :=
+  let v := s_v s in
+  match hs with
+  | [] => s
+  | [h] =>
+      let ps := c_parents (getc (s_g s) h) in
+      if negb (is_nil ps) && forallb (fun p => memn p (v_heads v)) ps
+      then set_view s (view_replace_heads v h ps)
+      else set_view s (view_add_head v h)
+  | _ => set_view s (fold_left view_add_head hs v)
+  end.
+(** The guard before the repair 3daac52 of /repo: vacuously true for the root commit. *)
+Definition add_heads_old (s : state) (hs : list nat) : state :=
   let v := s_v s in
   match hs with
   | [] => s
